@@ -21,9 +21,19 @@ def run(prop, tier):
         "one step of the real PCE500Emulator: IMR, ISR, pending flag, F symbolic; S symbolic inside plain RAM 0xB9000-0xBA000; PC=0x1000; ROM image with a concrete interrupt vector; timers disabled; no key latched",
         "cpu.execute_instruction / decode_instruction replaced by a recording stub (callee cut; the instruction contracts are C04/C05)",
         "gate specification from the property: delivered <=> pending and not already in a handler and IMR bit 7 set and (IMR & ISR & 0x7F) != 0",
-        "NOT decided (no contract within reach): 'taken promptly' beyond the same step boundary, HALT/OFF timing over several steps, interleavings of timer/key events with instruction boundaries, and the whole Rust runtime (CoreRuntime::step, deliver_pending_irq)",
+        "NOT decided (no contract within reach): 'taken promptly' beyond the same step boundary, HALT/OFF timing over several steps, interleavings of timer/key events with instruction boundaries; the Rust runtime (CoreRuntime::step, deliver_pending_irq) is NOT proved, a bounded law check runs on the compiled code",
     ]
-    v.bounded = [dict(part="schedule/liveness clauses and Rust runtime", bound="not covered", note="not decided: whole-history properties are outside this family")]
+    from props import rust_standin as RS
+    masks = [0x00, 0x01, 0x02, 0x04, 0x08, 0x10, 0x20, 0x40, 0x0F, 0x70, 0x7F, 0x05, 0x0A]
+    vec = dict(irq=dict(imr_values=[m | b for b in (0x00, 0x80) for m in masks]) if tier == "quick" else dict())
+    res = RS.run(vec, ["irq"], timeout=3000)
+    keep = (v.obligations, v.discharged)
+    v.absorb(RS.reports(res, vec, ["irq"]), known, expect_obligations=False)
+    v.obligations, v.discharged = keep
+    v.bounded = [RS.summarize(res, "irq", "one CoreRuntime::step over a NOP on the compiled crate for IMR in %s x all 256 ISR values x pending flag x in-interrupt flag x running/halted: taken only if master enable and "
+                                          "mask&status allow it, stack moves by 5 or 0, frame layout PC/F/IMR, master enable cleared, continues at the vector, bookkeeping flags; otherwise stack, IMR untouched and PC after the NOP, "
+                                          "pending request kept; deliverable request taken at this boundary; HALT wakes iff ISR != 0 and executes nothing otherwise" % ("26 values (both master-enable settings x 13 source masks)" if tier == "quick" else "all 256 values")),
+                 dict(part="schedule/liveness clauses (interleavings over several steps), OFF state, RETI in the Rust evaluator", bound="not covered", note="not decided: whole-history properties are outside this family")]
     v.samples = [dict(obligation="gate:enabled-and-pending=>delivered", statement="forall IMR,ISR,F,S,pending: pending and IRM and (IMR&ISR&0x7F) != 0 => the step pushes the 5-byte frame and continues at the vector"),
                  dict(obligation="halt:wakes-iff-status-pending", statement="halted' == (ISR == 0) after one step of a halted CPU")]
     rule = "real step() explored over symbolic IMR/ISR/pending/F/S (83 paths); obligations: gate both directions, frame layout, master enable cleared, nothing else written, pending flag kept when masked; HALT wake; IR/RETI lemma"
